@@ -69,20 +69,36 @@ Definition mconflict (m : mergefn) (cur new : val) : bool := snd (merge_vals m c
 Definition is_int (v : val) : Prop := match v with VInt _ => True | _ => False end.
 
 Definition zmerge (m : mergefn) (a b : Z) : Z :=
-  match m with MMin => Z.min a b | MMax => Z.max a b | _ => a end.
+  match m with MMin => Z.min a b | MMax => Z.max a b | MOr => Z.lor a b | MAnd => Z.land a b | _ => a end.
 
-Lemma mval_int m a b : m = MMin \/ m = MMax -> mval m (VInt a) (VInt b) = VInt (zmerge m a b).
-Proof. intros [->| ->]; reflexivity. Qed.
+(** the modelled lattices: min, max (selective) and bitwise or / and (NOT selective: the merged
+    value can differ from both inputs, which is what exposes a path that keeps the raw new row) *)
+Definition lattice (m : mergefn) : Prop := m = MMin \/ m = MMax \/ m = MOr \/ m = MAnd.
 
-Lemma mconflict_lattice m a b : m = MMin \/ m = MMax -> mconflict m (VInt a) (VInt b) = false.
-Proof. intros [->| ->]; reflexivity. Qed.
+Lemma mval_int m a b : lattice m -> mval m (VInt a) (VInt b) = VInt (zmerge m a b).
+Proof. intros [->|[->|[->| ->]]]; reflexivity. Qed.
 
-Lemma zmerge_assoc m : m = MMin \/ m = MMax -> forall a b c, zmerge m (zmerge m a b) c = zmerge m a (zmerge m b c).
-Proof. intros [->| ->] a b c; simpl; lia. Qed.
-Lemma zmerge_comm m : m = MMin \/ m = MMax -> forall a b, zmerge m a b = zmerge m b a.
-Proof. intros [->| ->] a b; simpl; lia. Qed.
-Lemma zmerge_idem m : m = MMin \/ m = MMax -> forall a, zmerge m a a = a.
-Proof. intros [->| ->] a; simpl; lia. Qed.
+Lemma mconflict_lattice m a b : lattice m -> mconflict m (VInt a) (VInt b) = false.
+Proof. intros [->|[->|[->| ->]]]; reflexivity. Qed.
+
+Lemma zmerge_assoc m : lattice m -> forall a b c, zmerge m (zmerge m a b) c = zmerge m a (zmerge m b c).
+Proof.
+  intros [->|[->|[->| ->]]] a b c; simpl; try lia.
+  - symmetry. apply Z.lor_assoc.
+  - symmetry. apply Z.land_assoc.
+Qed.
+Lemma zmerge_comm m : lattice m -> forall a b, zmerge m a b = zmerge m b a.
+Proof.
+  intros [->|[->|[->| ->]]] a b; simpl; try lia.
+  - apply Z.lor_comm.
+  - apply Z.land_comm.
+Qed.
+Lemma zmerge_idem m : lattice m -> forall a, zmerge m a a = a.
+Proof.
+  intros [->|[->|[->| ->]]] a; simpl; try lia.
+  - apply Z.lor_diag.
+  - apply Z.land_diag.
+Qed.
 
 (** :no-merge: two different values for one key raise the conflict flag; equal values do not *)
 Theorem nomerge_conflict a b : mconflict MAssertEq a b = negb (val_eqb a b).
@@ -211,8 +227,6 @@ Proof.
 Qed.
 
 (* ------------------------------------------------------------------ lattice functions *)
-
-Definition lattice (m : mergefn) : Prop := m = MMin \/ m = MMax.
 
 Definition mk_rows (ws : list (list val * Z)) : list row :=
   map (fun w => mkRow (fst w) (VInt (snd w)) false) ws.
